@@ -298,6 +298,36 @@ func runC03(c *core.Ctx) {
 		}
 		c.Shape("methods", up, d.portKind, len(d.Spec.FOpts), lenClassName(len(d.Spec.FRMPayload)), d.FOptsRaw)
 
+		// ---- commands that cannot be serialised: the methods must report it, not succeed
+		if i%16 == 3 {
+			invalid := &lorawan.MACCommand{CID: lorawan.LinkADRReq, Payload: &lorawan.LinkADRReqPayload{DataRate: 16}}
+			if up {
+				invalid = &lorawan.MACCommand{CID: lorawan.PingSlotInfoReq, Payload: &lorawan.PingSlotInfoReqPayload{Periodicity: 8}}
+			}
+			for _, where := range []string{"FOpts", "FRMPayload"} {
+				phy := frameOf(up, nil, -1, nil)
+				mp := phy.MACPayload.(*lorawan.MACPayload)
+				var call func() error
+				if where == "FOpts" {
+					mp.FHDR.FOpts = []lorawan.Payload{invalid}
+					call = func() error { return phy.EncryptFOpts(lorawan.AES128Key(key)) }
+				} else {
+					z := uint8(0)
+					mp.FPort = &z
+					mp.FRMPayload = []lorawan.Payload{invalid}
+					call = func() error { return phy.EncryptFRMPayload(lorawan.AES128Key(key)) }
+				}
+				var err error
+				c.Eval(1)
+				if p, msg := core.Guard(func() { err = call() }); p {
+					c.Violate("C03|method|unserialisable-command|panic|"+where, "%s", short(msg, 200))
+				} else if err == nil {
+					c.Violate("C03|method|unserialisable-command|success|"+where, "encrypting %s that hold a command which cannot be encoded (%s) reported success", where, core.Dump(invalid))
+				}
+				c.Shape("unserialisable", where, up)
+			}
+		}
+
 		// ---- over-long FOpts: transform or error, never silent success
 		if i%4 == 0 {
 			ln := 16 + r.Intn(25)
